@@ -195,6 +195,92 @@ func c16Codec(rep *Report) {
 			}
 		}
 	}
+	// ---- several streams in flight: every order of "strip the header" and
+	// "read the rest" across 2 and 3 streams; each stream must yield its own
+	// label and its own payload whatever happened on the others in between.
+	if mine(301) {
+		type strm struct {
+			label string
+			pl    []byte
+		}
+		mk := func(k int, label string, size int) strm {
+			pl := make([]byte, size)
+			for i := range pl {
+				pl[i] = byte(k*61 + i*7 + 1)
+			}
+			return strm{label, pl}
+		}
+		labels := []string{"", "a", "label-7", labelOfLen(255)}
+		sizes := []int{0, 5, 5000}
+		var orders func(pending []int, stripped []bool, done []bool, cur []int, emit func([]int))
+		orders = func(pending []int, stripped []bool, done []bool, cur []int, emit func([]int)) {
+			all := true
+			for i := range done {
+				if !done[i] {
+					all = false
+					if !stripped[i] {
+						stripped[i] = true
+						orders(pending, stripped, done, append(cur, i*2), emit)
+						stripped[i] = false
+					} else {
+						done[i] = true
+						orders(pending, stripped, done, append(cur, i*2+1), emit)
+						done[i] = false
+					}
+				}
+			}
+			if all {
+				emit(append([]int(nil), cur...))
+			}
+		}
+		run := func(ss []strm) {
+			k := len(ss)
+			orders(nil, make([]bool, k), make([]bool, k), nil, func(ord []int) {
+				rep.Evaluations++
+				conns := make([]net.Conn, k)
+				for i, st := range ss {
+					w := &recConn{}
+					if err := ml.AddLabelHeaderToStream(w, st.label); err != nil {
+						rep.Violate("codec-stream-add", err.Error(), nil)
+						return
+					}
+					conns[i] = &fragConn{data: append(append([]byte(nil), w.out...), st.pl...)}
+				}
+				for _, op := range ord {
+					i := op / 2
+					if op%2 == 0 {
+						c, lb, err := ml.RemoveLabelHeaderFromStream(conns[i])
+						if err != nil || lb != ss[i].label {
+							rep.Violate("codec-streams-interleaved-label", fmt.Sprintf("order %v stream %d: label %q err %v", ord, i, lb, err), nil)
+							return
+						}
+						conns[i] = c
+					} else {
+						rest, _ := io.ReadAll(conns[i])
+						if !bytes.Equal(rest, ss[i].pl) {
+							rep.Violate("codec-streams-interleaved-payload", fmt.Sprintf("%d streams, order %v (2i = strip stream i, 2i+1 = read it): stream %d (label %d bytes) yielded %d bytes that are not its own %d-byte payload", k, ord, i, len(ss[i].label), len(rest), len(ss[i].pl)), nil)
+							return
+						}
+					}
+				}
+				rep.Distinct++
+			})
+		}
+		for _, la := range labels {
+			for _, lb := range labels {
+				for _, sa := range sizes {
+					for _, sb := range sizes {
+						run([]strm{mk(1, la, sa), mk(2, lb, sb)})
+					}
+				}
+			}
+		}
+		for _, la := range labels[:3] {
+			for _, lb := range labels[:3] {
+				run([]strm{mk(1, la, 5), mk(2, lb, 5000), mk(3, la, 40)})
+			}
+		}
+	}
 	// documented error: present-but-empty label header
 	if mine(300) {
 		if _, _, err := ml.RemoveLabelHeaderFromPacket([]byte{244, 0, 1, 2}); err == nil {
